@@ -102,7 +102,11 @@ type goRes struct {
 	Canon string `json:"canon,omitempty"`
 	Raw   string `json:"raw,omitempty"`
 	Msg   string `json:"msg,omitempty"`
-	Order string `json:"order_dependent,omitempty"` // CHOOSE: result on the same set built in another order, if different
+	Order string `json:"order_dependent,omitempty"` // outcome on the same argument values built in another insertion order, if different
+	// number of construction-order variants of the arguments that were evaluated besides the base case, and
+	// whether the enumeration of variants was cut (more than maxVariantCombos combinations)
+	Variants int  `json:"variants,omitempty"`
+	VarCut   bool `json:"variants_cut,omitempty"`
 }
 
 func evalGo(o *opDef, args []tla.Value) (r goRes) {
@@ -137,22 +141,191 @@ func firstLine(s string) string {
 	return s
 }
 
-// rebuilt returns v with every set rebuilt by inserting its members in the opposite order and through \cup.
-func rebuilt(v tla.Value) tla.Value {
-	if !v.IsSet() {
-		return v
+const (
+	maxVariantsPerValue = 64  // {{a,b},{c,d},{e,f}} has 3!*2^3 = 48
+	maxVariantCombos    = 256 // over all arguments of one case
+)
+
+func permutations(n int) [][]int {
+	if n == 0 {
+		return [][]int{{}}
 	}
-	var el []tla.Value
-	it := v.AsSet().Iterator()
-	for !it.Done() {
-		k, _, _ := it.Next()
-		el = append(el, k)
+	var out [][]int
+	for _, p := range permutations(n - 1) {
+		for pos := 0; pos <= len(p); pos++ {
+			q := append(append(append([]int{}, p[:pos]...), n-1), p[pos:]...)
+			out = append(out, q)
+		}
 	}
-	out := tla.MakeSet()
-	for i := len(el) - 1; i >= 0; i-- {
-		out = tla.ModuleUnionSymbol(tla.MakeSet(el[i]), out)
+	// identity first
+	for i, p := range out {
+		id := true
+		for j, x := range p {
+			if x != j {
+				id = false
+			}
+		}
+		if id {
+			out[0], out[i] = out[i], out[0]
+		}
 	}
 	return out
+}
+
+// cartesian calls f with every choice of one element per list (first choice = first elements), until f returns false.
+func cartesian(lists [][]tla.Value, f func([]tla.Value) bool) {
+	cur := make([]tla.Value, len(lists))
+	var rec func(i int) bool
+	rec = func(i int) bool {
+		if i == len(lists) {
+			return f(append([]tla.Value{}, cur...))
+		}
+		for _, x := range lists[i] {
+			cur[i] = x
+			if !rec(i + 1) {
+				return false
+			}
+		}
+		return true
+	}
+	rec(0)
+}
+
+// orderVariants returns the same TLA+ value built in every insertion order of its set members and function
+// pairs, at every nesting level (immutable maps of <= 8 entries iterate in insertion order, so the order is
+// observable by anything that iterates).  The first variant is the value as given.  cut reports truncation.
+func orderVariants(v tla.Value) (out []tla.Value, cut bool) {
+	add := func(x tla.Value) bool {
+		if len(out) >= maxVariantsPerValue {
+			cut = true
+			return false
+		}
+		out = append(out, x)
+		return true
+	}
+	sub := func(x tla.Value) []tla.Value {
+		vs, c := orderVariants(x)
+		cut = cut || c
+		return vs
+	}
+	switch {
+	case v.IsSet():
+		var members [][]tla.Value
+		it := v.AsSet().Iterator()
+		for !it.Done() {
+			k, _, _ := it.Next()
+			members = append(members, sub(k))
+		}
+		if len(members) > 4 {
+			cut = true
+			return []tla.Value{v}, cut
+		}
+		for _, p := range permutations(len(members)) {
+			lists := make([][]tla.Value, len(p))
+			for i, j := range p {
+				lists[i] = members[j]
+			}
+			ok := true
+			cartesian(lists, func(el []tla.Value) bool { ok = add(tla.MakeSet(el...)); return ok })
+			if !ok {
+				break
+			}
+		}
+	case v.IsTuple():
+		var lists [][]tla.Value
+		it := v.AsTuple().Iterator()
+		for !it.Done() {
+			_, e := it.Next()
+			lists = append(lists, sub(e))
+		}
+		cartesian(lists, func(el []tla.Value) bool { return add(tla.MakeTuple(el...)) })
+	case v.IsFunction():
+		var keys, vals [][]tla.Value
+		it := v.AsFunction().Iterator()
+		for !it.Done() {
+			k, x, _ := it.Next()
+			keys, vals = append(keys, sub(k)), append(vals, sub(x))
+		}
+		if len(keys) > 4 {
+			cut = true
+			return []tla.Value{v}, cut
+		}
+		for _, p := range permutations(len(keys)) {
+			var lists [][]tla.Value
+			for _, j := range p {
+				lists = append(lists, keys[j], vals[j])
+			}
+			ok := true
+			cartesian(lists, func(el []tla.Value) bool {
+				var f []tla.RecordField
+				for i := 0; i < len(el); i += 2 {
+					f = append(f, tla.RecordField{Key: el[i], Value: el[i+1]})
+				}
+				ok = add(tla.MakeRecord(f))
+				return ok
+			})
+			if !ok {
+				break
+			}
+		}
+	default:
+		out = []tla.Value{v}
+	}
+	if len(out) == 0 {
+		out = []tla.Value{v}
+	}
+	return out, cut
+}
+
+// evalVariants evaluates the operator on every construction-order variant of its arguments (all combinations when
+// there are at most maxVariantCombos, otherwise every variant of one argument at a time) and records the first
+// outcome that differs from the base outcome.
+func evalVariants(o *opDef, args []tla.Value, r *goRes) {
+	lists := make([][]tla.Value, len(args))
+	total := 1
+	for i, a := range args {
+		vs, cut := orderVariants(a)
+		r.VarCut = r.VarCut || cut
+		lists[i] = vs
+		total *= len(vs)
+	}
+	if total == 1 {
+		return
+	}
+	try := func(va []tla.Value) bool {
+		r.Variants++
+		r2 := evalGo(o, va)
+		if r2.Kind != r.Kind || r2.Canon != r.Canon {
+			var in []string
+			for _, x := range va {
+				in = append(in, x.String())
+			}
+			r.Order = fmt.Sprintf("%s:%s on the arguments built as %s", r2.Kind, r2.Canon, strings.Join(in, " ; "))
+			return false
+		}
+		return true
+	}
+	if total <= maxVariantCombos {
+		first := true
+		cartesian(lists, func(va []tla.Value) bool {
+			if first { // the base case itself
+				first = false
+				return true
+			}
+			return try(va)
+		})
+		return
+	}
+	r.VarCut = true
+	for i := range args {
+		for _, x := range lists[i][1:] {
+			va := append([]tla.Value{}, args...)
+			va[i] = x
+			if !try(va) {
+				return
+			}
+		}
+	}
 }
 
 func childMain(t *testing.T) {
@@ -196,11 +369,8 @@ func childMain(t *testing.T) {
 		w.Flush()
 		mu.Unlock()
 		r := evalGo(o, args)
-		if o.Choose != "" && r.Kind == "value" {
-			r2 := evalGo(o, []tla.Value{rebuilt(args[0])})
-			if r2.Kind != r.Kind || r2.Canon != r.Canon {
-				r.Order = r2.Kind + ":" + r2.Canon
-			}
+		if r.Kind == "value" || r.Kind == "tlatype" {
+			evalVariants(o, args, &r)
 		}
 		b, _ := json.Marshal(r)
 		mu.Lock()
@@ -462,6 +632,10 @@ func judge(c tcase, T oracleEntry, G goRes, oracle map[string]oracleEntry) verdi
 	case "panic":
 		return viol("panic-not-tla-type-error", "panics with something that is not ErrTLAType: "+G.Msg)
 	}
+	if G.Order != "" {
+		// a TLA+ operator is a function of the values of its arguments, not of how they were built
+		return viol("construction-order", "gives "+G.Kind+":"+G.Canon+" but "+G.Order)
+	}
 	if !T.OK && T.ErrClass == "timeout" {
 		return verdict{Class: "unjudged-tlc-timeout"}
 	}
@@ -682,6 +856,41 @@ func TestCheck(t *testing.T) {
 		var oracleDiff []string
 		var jvmRuns int64
 		regen := env.Thorough() || os.Getenv("VERIF_C03_REGEN") != "" || lerr != nil
+		if os.Getenv("VERIF_C03_REGEN") == "missing" && lerr == nil {
+			// extend the committed table: TLC evaluates only the expressions that have no row yet
+			regen = false
+			var miss []string
+			for _, e := range exprs {
+				if _, ok := oracle[e]; !ok {
+					miss = append(miss, e)
+				}
+			}
+			ctx, cancel := context.WithDeadline(context.Background(), env.Deadline)
+			fresh, runs, err := tlcEvaluate(ctx, miss, env.Workers)
+			cancel()
+			jvmRuns = runs
+			if err != nil {
+				t.Fatalf("TLC failed on the %d missing rows: %v", len(miss), err)
+			}
+			for e, x := range fresh {
+				oracle[e] = x
+			}
+			oracleSource += fmt.Sprintf(" + %d rows added by TLC in this run", len(miss))
+			if p := os.Getenv("VERIF_C03_WRITE_ORACLE"); p != "" {
+				// rows of the committed table stay verbatim, including rows no current case uses
+				all := append([]string{}, exprs...)
+				var rest []string
+				for e := range oracle {
+					if !seenExpr[e] {
+						rest = append(rest, e)
+					}
+				}
+				sort.Strings(rest)
+				if err := writeOracle(p, append(all, rest...), oracle); err != nil {
+					t.Fatal(err)
+				}
+			}
+		}
 		if regen {
 			ctx, cancel := context.WithDeadline(context.Background(), env.Deadline)
 			fresh, runs, err := tlcEvaluate(ctx, exprs, env.Workers)
@@ -755,6 +964,7 @@ func TestCheck(t *testing.T) {
 		violCount := map[string]int{}
 		var samples []any
 		missing, evals := 0, 0
+		variantEvals, variantCut := 0, 0
 		var bad []string
 		for _, o := range ops {
 			cs := byOp[o.Name]
@@ -772,6 +982,10 @@ func TestCheck(t *testing.T) {
 					g.Kind = "skipped"
 				}
 				evals++
+				variantEvals += g.Variants
+				if g.VarCut {
+					variantCut++
+				}
 				v := judge(c, T, g, oracle)
 				classes[v.Class]++
 				perOp[o.Key][v.Class]++
@@ -829,6 +1043,9 @@ func TestCheck(t *testing.T) {
 						if g.Kind == "value" && g.Canon != first.Canon {
 							same = false
 						}
+						if (g.Order != "") != (first.Order != "") {
+							same = false
+						}
 					}
 					ch <- conf{k, same}
 				}()
@@ -866,7 +1083,7 @@ func TestCheck(t *testing.T) {
 			"distinct_nontrivial": len(outcomes),
 			"rule": "for every exported operator/builtin of distsys/tla: every argument tuple of its well-kinded domains (atoms TRUE FALSE -2..3 MaxInt32 MinInt32 \"\" \"a\"; sets, tuples, records, functions of <=2 elements, some nested) " +
 				"plus one representative per kind (bool int string set tuple record function-over-1..n) per argument position for the ill-kinded part; quantifiers/CHOOSE/comprehension over fixed predicate and body families; " +
-				"each evaluated by the Go runtime in a watched child process and compared with TLC's result for the same expression. distinct_nontrivial = distinct (operator, Go outcome) pairs",
+				"each evaluated by the Go runtime in a watched child process and compared with TLC's result for the same expression; every case is evaluated again on every construction-order variant of its arguments (all permutations of the insertion order of set members and function pairs at every nesting level, all combinations over the arguments up to 256, else one argument at a time) and must give the same outcome. distinct_nontrivial = distinct (operator, Go outcome) pairs",
 			"samples":                     samples,
 			"exhaustive":                  missing == 0 && classes["unjudged-skipped"] == 0 && classes["unjudged-env-timeout"] == 0,
 			"operators":                   len(opKeys),
@@ -884,6 +1101,8 @@ func TestCheck(t *testing.T) {
 			"discarded_env_timeout":       classes["unjudged-env-timeout"],
 			"divergences":                 divergences,
 			"witness_reruns_per_key":      4,
+			"order_variant_evaluations":   variantEvals,
+			"order_variants_cut_cases":    variantCut,
 			"universe_values_checked_tlc": len(uni),
 			"not_covered":                 "operators the compiler inlines as Go (/\\, \\/, =>, IF, CASE); values deeper than the listed universe; SelectElement (not a TLA+ operator, see C10)",
 		}
